@@ -190,7 +190,14 @@ func HarnessC12MaxElapsedTimed() {
 	msg := message.NewMessage("m", nil)
 	// the message context: never cancelled / cancelled before the call / cancelled 5ms into the first back-off
 	cancelAt := vrt.Int("message.context.cancelled", 0, 2)
-	mctx, mcancel := context.WithCancel(context.Background())
+	base := context.Background()
+	if vrt.Bool("message.context.has.a.later.deadline") {
+		// e.g. an outer Timeout middleware, or a Pub/Sub that puts deadlines on its messages
+		var dcancel context.CancelFunc
+		base, dcancel = context.WithTimeout(base, time.Second)
+		defer dcancel()
+	}
+	mctx, mcancel := context.WithCancel(base)
 	defer mcancel()
 	msg.SetContext(mctx)
 	switch cancelAt {
